@@ -190,6 +190,10 @@ func (s *Subscription) Loaded(resourceSub *rescache.ResourceSubscription, err er
 	if !s.c.Enqueue(func() {
 		if err != nil {
 			s.err = err
+			// The subscription is not subscribed to the resource in the cache,
+			// and will not be told when access needs to be checked anew. No
+			// access response is kept for it.
+			s.access = nil
 			s.doneLoading()
 			return
 		}
@@ -979,8 +983,9 @@ func (s *Subscription) handleAccess(access *rescache.Access) {
 
 		cbs := s.accessCallbacks
 		s.flags &= ^flagAccessCalled
-		// Only store in case of an actual result or system.accessDenied error
-		if access.Error == nil || access.Error.Code == reserr.CodeAccessDenied {
+		// Only store in case of an actual result or system.accessDenied error,
+		// and not for a resource that failed to load.
+		if (access.Error == nil || access.Error.Code == reserr.CodeAccessDenied) && s.err == nil {
 			s.access = access
 		}
 		s.accessCallbacks = nil
